@@ -17,8 +17,8 @@ func init() {
 		ID:  "C04",
 		Run: runC04,
 		Explanation: "Persistent clients. Decided: (D1) lookup precedence: the request path and the upstream selection ask for the ClientID first, for the address only when that failed, and for the DHCP MAC only when both failed; the address lookup tries the exact address before the subnets; " +
-			"(D2) own-settings switches: the client's filtering / safe-search / safe-browsing / parental settings are copied only on the UseOwnSettings edge and its blocked services only on the UseOwnBlockedServices edge, and the per-client list replaces the global one only when present; (D3) clash check before mutation in one critical section: add/remove of index entries are reached only after the clash checks returned nil, with the storage mutex held from the check to the mutation; " +
-			"(D4) index siblings agree: add writes and remove deletes exactly all maps of the index, nothing else mutates them, and every identifier map is consulted by a clash check and by a finder; (D5) every access to the indexes happens under the storage mutex. " +
+			"(D2) own-settings switches: the client's filtering / safe-search / safe-browsing / parental settings are copied only on the UseOwnSettings edge and its blocked services only on the UseOwnBlockedServices edge, and the per-client list replaces the global one exactly when present (also while the client's own schedule pauses it); the client's name and tags reach the filter for every found client, whatever the switches say; (D3) clash check before mutation in one critical section: add/remove of index entries are reached only after the clash checks returned nil, with the storage mutex held from the check to the mutation; " +
+			"(D4) index siblings agree: add writes and remove deletes exactly all maps of the index, nothing else mutates them, add and remove address each map with the same key expression, and every identifier map is consulted by a clash check and by a finder; (D5) every access to the indexes happens under the storage mutex. " +
 			"(D6) the most specific subnet wins: the comparator the subnet index is sorted with, evaluated over the finite domain {sign of the prefix-length difference} x {sign of the address comparison}, puts the longer prefix first for every address relation, is antisymmetric and zero only for the same subnet; the lookup's range callback stops at the first prefix that contains the address. " +
 			"Not decided: consistency over arbitrary add/update/remove histories, DHCP-lease interleavings, prefix containment itself.",
 		RuleText:    "Call ordering and edge guards on SSA, field-set agreement between sibling functions, who-may-write enumeration, lock dominance over static callers.",
